@@ -165,7 +165,7 @@ func (sc PidScenario) driverLine() string {
 		sched = append(sched, "s0")
 	}
 	for n, op := range sc.Ops {
-		toks = append(toks, op.encode())
+		toks = append(toks, op.encodeAs(rawID(sc.Icpt, op.ID, op.Sp)))
 		sched = append(sched, "c0", "n0", "d0", "R")
 		if sc.Late == n+1 {
 			sched = append(sched, "s0")
@@ -179,6 +179,9 @@ func (sc PidScenario) driverLine() string {
 	progs := strings.Join(toks, ";")
 	if progs == "" {
 		progs = "-"
+	}
+	if sc.Icpt != "" {
+		return fmt.Sprintf("pullidi %d %d %s %s %s0n %s", icptMod, rawID(sc.Icpt, sc.OID, sc.Sp), f[1], progs, b01(sc.UO), strings.Join(sched, ","))
 	}
 	return fmt.Sprintf("pullid %d %s %s %s0n %s", sc.OID, f[1], progs, b01(sc.UO), strings.Join(sched, ","))
 }
